@@ -152,7 +152,10 @@ def generate(rng: random.Random, batch: dict) -> dict:
 
 BUNDLED = [("stuart_landau", "linear"), ("stuart_landau", "quadratic"),
            ("stuart_landau", "cubic"), ("lorenz", "linear"),
-           ("lorenz", "quadratic")]
+           ("lorenz", "quadratic"), ("stuart_landau", "anns"),
+           ("lorenz", "anns"), ("three_coupled_oscillators", "anns"),
+           ("stuart_landau", "peaks"), ("stuart_landau", "partially_linear"),
+           ("lorenz", "min_anns"), ("three_coupled_oscillators", "anns")]
 # ("lorenz", "cubic") is left out: with any non-zero gain the closed loop is
 # stiff (millions of RK45 steps) - slow, not non-terminating.
 
@@ -250,8 +253,13 @@ def _bundled_parts(b: dict):
               "three_coupled_oscillators": "THREE_COUPLED_OSCILLATORS"}
     sysobj = getattr(sysmod, system[b["system"]])
     cmod = importlib.import_module(
-        f"moptipyapps.dynamic_control.controllers.{b['controller']}")
+        "moptipyapps.dynamic_control.controllers." + {
+            "anns": "ann", "min_anns": "min_ann"}.get(
+            b["controller"], b["controller"]))
     ctrl = getattr(cmod, b["controller"])(sysobj)
+    if not hasattr(ctrl, "parameter_space"):   # a family of controllers
+        ctrl = list(ctrl)
+        ctrl = ctrl[int(b["params_seed"]) % len(ctrl)]
     space = ctrl.parameter_space()
     rnd = random.Random(b["params_seed"])
     params = np.array([rnd.uniform(-1.0, 1.0) * float(b["scale"])
